@@ -659,12 +659,17 @@ class Impl:
             return (all(a <= b for a, b in zip(ts, ts[1:])), len(set(keys)) == len(keys))
         if k == 'has':
             _, r, u, v, t = op
+            if F and d:
+                a, b = bool(G.has_successor(I.to(u), I.to(v), t)), bool(G.has_predecessor(I.to(v), I.to(u), t))
+                return a if a == b else 'SUCC-PRED-MISMATCH'
             return bool(G.has_interaction(I.to(u), I.to(v), t=t))
         if k == 'nbrs':
             _, r, kind, n, t = op
             try:
                 if kind in ('neighbors', 'successors', 'predecessors'):
-                    if F and kind == 'neighbors':
+                    if F == 2 and kind == 'neighbors' and (d or I.to(n) in G._node):
+                        res = G.neighbors_iter(I.to(n), t=t)
+                    elif F and kind == 'neighbors':
                         res = D.neighbors(G, I.to(n), t=t)
                     elif F:
                         res = getattr(G, kind + '_iter')(I.to(n), t=t)
@@ -682,12 +687,16 @@ class Impl:
             if isinstance(nb, tuple) and len(nb) == 2 and nb[0] == 'one':
                 # scalar nbunch: a number for a node of the graph
                 x = I.to(nb[1])
+                if x not in G._node:
+                    return []   # a scalar that is not a node: networkx raises NetworkXError by design -- not exercised
                 res = (D.degree(G, x, t) if (F and kind == 'degree') else getattr(G, kind)(x, t))
                 if isinstance(res, dict):
                     return sorted((I.back(n), dd) for n, dd in res.items())
                 return [(nb[1], res)]
             nbx = None if nb is None else [I.to(x) for x in nb]
-            if F and kind == 'degree':
+            if F == 2:
+                res = dict(getattr(G, kind + '_iter')(nbx, t))
+            elif F and kind == 'degree':
                 res = D.degree(G, nbx, t)
             elif F:
                 res = dict(getattr(G, kind + '_iter')(nbx, t))
@@ -697,7 +706,9 @@ class Impl:
         if k == 'inter':
             _, r, kind, t, nb = op
             nbx = None if nb is None else [I.to(x) for x in nb]
-            if F and kind == 'interactions':
+            if F == 2:
+                res = list(getattr(G, kind + '_iter')(nbx, t))
+            elif F and kind == 'interactions':
                 res = D.interactions(G, nbx, t=t)
             elif F:
                 res = list(getattr(G, kind + '_iter')(nbx, t))
@@ -711,6 +722,10 @@ class Impl:
             return sorted((_npair(d, I.back(u), I.back(v)), tuple((a, b) for a, b in dd['t'])) for u, v, dd in res)
         if k == 'nodes':
             _, r, t = op
+            if F == 2:
+                ns = list(G.nodes_iter(t=t))
+                data = {n: G._node[n] for n in ns}
+                return sorted((I.back(n), attr_back(a)) for n, a in data.items())
             if F:
                 ns = D.nodes(G, t)
                 data = {n: G._node[n] for n in ns}
@@ -723,7 +738,10 @@ class Impl:
             _, r, t = op
             if F:
                 return D.number_of_nodes(G, t)
-            return G.number_of_nodes(t) if d or t is None or True else None
+            if not d:
+                a, b = G.number_of_nodes(t), G.order(t)
+                return a if a == b else 'ORDER-MISMATCH'
+            return G.number_of_nodes(t)
         if k == 'nint':
             _, r, uv, t = op
             if uv is None:
